@@ -1,4 +1,5 @@
 import ThermoVerif.Lemmas.Reaction
+import ThermoVerif.Lemmas.ReactionParse
 /-
 C05 — Reactions conserve mass and atoms and convert exactly X of the reactant.
 
@@ -924,5 +925,82 @@ theorem other_package_nonneg (o : RObj) (tol : Rat) (ph pkg : List Nat) (rows ro
     obtain ⟨_, hf⟩ := core_ok o tol _ out hc
     intro r hr x hx
     exact normal_return_nonneg tol _ out hf x (mem_chunk _ _ out r hr x hx)
+
+/-! ## the parsers: `parse (print ν) = ν`
+
+`printReaction` / `printStoich` (Lemmas/ReactionParse.lean) write a stoichiometry in the grammar
+`a A + b B -> c C`: identifier-like chemical names (letters and digits, starting with a letter other
+than `e`), non-negative decimal coefficients `d / 10^k` written with `k` fractional digits (`k = 0`:
+an integer; a coefficient of exactly 1 is omitted).  The parsers are the Lean models of
+`_parse.str2dct` / `_xparse.str2dct` (`str2terms`) and `_parse.dct2arr` (`terms2vec`) that the driver
+runs on the very strings handed to thermosteam. -/
+
+/-- Python's `float(literal)` on a printed coefficient is the coefficient (exactly) -/
+theorem parse_coefficient (c : Coef) : parseDecimal (coefChars c) = some c.val :=
+  parseDecimal_coefChars c
+
+/-- string → terms: parsing the printed reaction gives back exactly the printed terms, reactants
+negated first, then products (distinct identifier-like names, both sides non-empty) -/
+theorem parse_print_terms (L R : List PTerm) (hL : L ≠ []) (hR : R ≠ [])
+    (hid : ∀ t ∈ L ++ R, IdentLike t.2) (hnd : ((L ++ R).map (·.2)).Nodup) :
+    str2terms false (printReaction L R) = some (.ok (sideOut (-1) L ++ sideOut 1 R)) :=
+  str2terms_printReaction L R hL hR hid hnd
+
+/-- dict → vector: `parse_dict (toDict ν) = ok ν` for every vector over the package (names that
+resolve to their own chemical) -/
+theorem parse_dict_toDict (names : Names) (hres : Resolves names) (nu : Vec) (hlen : nu.length = names.length) :
+    terms2vec names (toDict names nu) = .ok nu :=
+  terms2vec_toDict names hres nu hlen
+
+/-- string → vector, the full round trip: `parse (print ν) = ok ν` for every stoichiometric vector
+with decimal coefficients that has at least one reactant and one product -/
+theorem parse_print_roundtrip (names : Names) (hres : Resolves names)
+    (hid : ∀ i, i < names.length → IdentLike (primary names i))
+    (σ : DStoich) (hlen : σ.length = names.length)
+    (hL : σ.side false ≠ []) (hR : σ.side true ≠ []) :
+    parseReaction names (printStoich names σ) = some (.ok σ.vec) :=
+  parse_print names hres hid σ hlen hL hR
+
+/-- the phase-tagged grammar `a A,g + b B,l -> c C,s` (`_xparse.str2dct`), string → terms with phases -/
+theorem parse_print_phased_terms (L R : List XTerm) (hL : L ≠ []) (hR : R ≠ [])
+    (hid : ∀ t ∈ L ++ R, IdentLike t.2.1 ∧ (phaseCode t.2.2).isSome = true)
+    (hnd : ((L ++ R).map (·.2.1)).Nodup) :
+    str2terms true (String.ofList (xprintCharsNS L R)) = some (.ok (xsideOut (-1) L ++ xsideOut 1 R)) :=
+  str2terms_xprint L R hL hR hid hnd
+
+/-- Full statement for the phase-tagged grammar down to the 2-d array (`_xparse.dct2arr`, model
+`terms2rows`): every printed term ends up in the row of its phase at the column of its chemical, all
+other entries are zero.  Proved so far: the string → terms half (`parse_print_phased_terms`); the
+terms → rows half is covered by the correspondence run only. -/
+def parse_print_phased_statement : Prop :=
+  ∀ (names : Names) (phases : List Nat) (L R : List XTerm), Resolves names → L ≠ [] → R ≠ [] →
+    (∀ t ∈ L ++ R, IdentLike t.2.1 ∧ ∃ i, names.index t.2.1 = some i) →
+    (∀ t ∈ L ++ R, ∃ code, phaseCode t.2.2 = some code ∧ code ∈ phases) → phases.Nodup →
+    ((L ++ R).map (·.2.1)).Nodup → ((L ++ R).map fun t => names.index t.2.1).Nodup →
+    ∃ rows, ((str2terms true (String.ofList (xprintCharsNS L R))).map
+        fun r => r.bind (terms2rows names phases)) = some (.ok rows) ∧
+      rows.length = phases.length ∧
+      (∀ t ∈ L, ∀ i code p, names.index t.2.1 = some i → phaseCode t.2.2 = some code →
+        phases.idxOf? code = some p → (rows.getD p []).getD i 0 = -t.1.val) ∧
+      (∀ t ∈ R, ∀ i code p, names.index t.2.1 = some i → phaseCode t.2.2 = some code →
+        phases.idxOf? code = some p → (rows.getD p []).getD i 0 = t.1.val)
+
+/-- non-vacuity: a package (H2O | Water, H2, O2), the vector (+1.5, −2, −1): what is printed, and
+that the hypotheses of the round trip hold for it -/
+example : printReaction [(⟨2, 0⟩, "H2"), (⟨1, 0⟩, "O2")] [(⟨15, 1⟩, "H2O")] = "2 H2 + O2 -> 1.5 H2O" := by
+  decide +kernel
+
+example : IdentLike "H2O" ∧ IdentLike "H2" ∧ IdentLike "O2" :=
+  ⟨⟨'H', ['2', 'O'], by decide, by decide, by decide, by decide⟩,
+   ⟨'H', ['2'], by decide, by decide, by decide, by decide⟩,
+   ⟨'O', ['2'], by decide, by decide, by decide, by decide⟩⟩
+
+example : Resolves [["H2O", "Water"], ["H2"], ["O2"]] := by
+  intro i hi
+  have : i = 0 ∨ i = 1 ∨ i = 2 := by simp at hi; omega
+  rcases this with rfl | rfl | rfl <;> decide +kernel
+
+example : parseReaction [["H2O", "Water"], ["H2"], ["O2"]] "2 H2 + O2 -> 1.5 Water" = some (.ok [3/2, -2, -1]) := by
+  decide +kernel
 
 end ThermoVerif.Props.C05
